@@ -91,6 +91,26 @@ def exclusive(e1, e2):
     return False
 
 
+def stale_reads(tr, allow=None):
+    """(read event, write event) pairs: a register read that follows a register write on some path and may name the
+    same register (not two different constants; re-reading the very index just written is a deliberate read-back)."""
+    out = []
+    for w in tr.events:
+        if w.kind not in ('RegWrite', 'RmodeWrite'):
+            continue
+        wi = w.d['idx']
+        for e in tr.events:
+            if e.kind != 'RegRead' or e.idx <= w.idx or exclusive(e, w):
+                continue
+            ri = e.d['idx']
+            if ri == wi or (ri[0] == 'const' and wi[0] == 'const'):
+                continue
+            if allow is not None and allow(e, w):
+                continue
+            out.append((e, w))
+    return out
+
+
 def subterms(t):
     yield t
     if isinstance(t, tuple):
